@@ -8,6 +8,7 @@ from ..engine import finite, flow
 from ..engine.mutate import Mutant, Variant, in_function, replace_once, sub_once
 from ..engine.runner import Rule
 from ..engine.source import AnalysisError
+from . import C10
 from . import shared
 from .common import callee_name, calls_in, kwarg, stmts_of
 
@@ -594,6 +595,7 @@ def rule_setters_write(ctx):
 
 
 RULES = [
+    Rule("R-C09-10", "the cached readiness follows every change of an input's attachment or state (a stale _ready lets _derive_job meet a state it rejects as internal error)", C10.rule_flag_coverage, min_instances=62),
     Rule("R-C09-9", "primitive setters perform their write", rule_setters_write, min_instances=11),
     Rule("R-C09-1", "row invariants guarded by CHECK / RAISE triggers", rule_guards, min_instances=17),
     Rule("R-C09-2", "table ownership", rule_ownership, min_instances=25),
